@@ -296,7 +296,7 @@ Definition scan_token (res : rres) : option bytes :=
 (* ------------------------------------------------------------------ *)
 Definition EV_FTP : N := 1%N.          (* [command line] *)
 Definition EV_SMTP_LINE : N := 2%N.    (* [line] *)
-Definition EV_SMTP_MAIL : N := 3%N.    (* [body] *)
+Definition EV_SMTP_MAIL : N := 3%N.    (* [body; subject] *)
 Definition EV_REDIS : N := 4%N.        (* [command] *)
 Definition EV_MC_CMD : N := 5%N.       (* [command line] *)
 Definition EV_MC_STORE : N := 6%N.     (* [cmd; key; flags; exptime; bytes; payload] *)
@@ -342,27 +342,44 @@ Definition header_line_ok (l : bytes) : bool :=
   | (_, None) => false
   end.
 
-(* msg: remaining text; n: header lines seen *)
-Fixpoint mail_parse_f (fuel : nat) (msg : bytes) (n : nat) : option bytes :=
+(* msg: remaining text; n: header lines seen; subj: values of the Subject headers so far *)
+Definition s_subject := [115;117;98;106;101;99;116]%N.
+Definition header_subject (l : bytes) (subj : list bytes) : list bytes :=
+  match cut 58%N l with
+  | (k, Some v) => if eqb_bytes (map lower k) s_subject
+                   then subj ++ [trim_both (fun b => beq b SP || beq b 9%N) v] else subj
+  | (_, None) => subj
+  end.
+Fixpoint join_comma (l : list bytes) : bytes :=
+  match l with
+  | [] => []
+  | [x] => x
+  | x :: r => x ++ 44%N :: join_comma r
+  end.
+
+(* (subject, body) *)
+Fixpoint mail_parse_f (fuel : nat) (msg : bytes) (n : nat) (subj : list bytes) : option (bytes * bytes) :=
   match fuel with
   | O => None
   | S f =>
       match msg with
-      | [] => if 0 <? n then Some [] else None          (* EOF inside the header *)
+      | [] => if 0 <? n then Some (join_comma subj, []) else None          (* EOF inside the header *)
       | _ =>
           match tp_line (fst (s_until LF msg)) with
           | None => None
-          | Some [] => Some (snd (s_until LF msg))      (* blank line: body follows *)
-          | Some l => if header_line_ok l then mail_parse_f f (snd (s_until LF msg)) (S n) else None
+          | Some [] => Some (join_comma subj, snd (s_until LF msg))      (* blank line: body follows *)
+          | Some l => if header_line_ok l
+                      then mail_parse_f f (snd (s_until LF msg)) (S n) (header_subject l subj) else None
           end
       end
   end.
-Definition mail_parse (msg : bytes) : option bytes :=
+Definition mail_parse (msg : bytes) : option (bytes * bytes) :=
   match msg with
   | 32%N :: _ => None
   | 9%N :: _ => None
-  | _ => mail_parse_f (S (length msg)) msg 0
+  | _ => mail_parse_f (S (length msg)) msg 0 []
   end.
+Definition mail_event (m : bytes * bytes) : event := mkEv EV_SMTP_MAIL [snd m; fst m].
 
 (* textproto dotReader.Read, byte by byte (ReadByte through the buffer) *)
 Inductive dot_st := DBegin | DDot | DDotCR | DCR | DData.
@@ -423,76 +440,82 @@ Definition s_DATA := [68;65;84;65]%N.
 Definition s_LAST := [76;65;83;84]%N.
 Definition LOOP_TRESHOLD : nat := 100.
 
-(* st: state; i: loop counter; buf: c.msg.Buffer (BDAT chunks so far) *)
-Fixpoint smtp_prog (fuel : nat) (st : smtp_st) (i : nat) (buf : bytes) : prog :=
+(* One command line.  st: state; i: loop counter; buf: c.msg.Buffer, the BDAT chunks received
+   so far; [self] is the rest of the dialogue (smtp_prog with less fuel); [dotfuel] bounds the
+   DATA text.  clean = true is the reference reading: MAIL FROM starts a mail with an empty
+   buffer; clean = false is the code: only RSET and a finished mail replace c.msg, so chunks
+   of a transaction abandoned otherwise (unknown command, empty line) stay in the buffer. *)
+Definition smtp_step (clean : bool) (self : smtp_st -> nat -> bytes -> prog) (dotfuel : nat)
+           (st : smtp_st) (i : nat) (buf : bytes) (line : bytes) : prog :=
+  match st with
+  | SHello =>
+      if is_command line s_HELO || is_command line s_EHLO
+      then (match hello_domain line with [] => PDone 0 | _ => self SLoop i buf end)
+      else if is_command line s_HELP then self SHello i buf
+      else PDone 0
+  | SLoop =>
+      match line with
+      | [] => self SLoop i buf
+      | _ =>
+          if LOOP_TRESHOLD <? S i then PDone 0
+          else if is_command line s_MAILFROM then self SMail (S i) (if clean then [] else buf)
+          else if is_command line s_STARTTLS then PDone 0   (* TLS handshake on the raw conn *)
+          else if is_command line s_RSET then self SLoop (S i) []
+          else if is_command line s_QUIT then PDone 0
+          else self SLoop (S i) buf
+      end
+  | SMail =>
+      match line with
+      | [] => self SLoop i buf
+      | _ =>
+          if is_command line s_RSET then self SLoop i []
+          else if is_command line s_RCPTTO then self SMail i buf
+          else if is_command line s_BDAT then
+            match split_on SP line with
+            | _ :: cnt :: rest =>
+                match parse_int 32 cnt with
+                | None => PDone 0
+                | Some count =>
+                    let n := Z.to_nat count in
+                    PTake n (fun chunk =>
+                      if length chunk <? n then PDone 0     (* CopyN: EOF *)
+                      else
+                        let buf' := buf ++ chunk in
+                        match rest with
+                        | [w] => if eqb_bytes w s_LAST
+                                 then match mail_parse buf' with
+                                      | None => PDone 0
+                                      | Some m => PEmit (mail_event m) (self SLoop i [])
+                                      end
+                                 else self SMail i buf'
+                        | _ => self SMail i buf'
+                        end)
+                end
+            | _ => PDone 2                                   (* parts[1]: index out of range *)
+            end
+          else if is_command line s_DATA then
+            dot_prog dotfuel DBegin [] (fun r =>
+              match r with
+              | None => PDone 0
+              | Some text =>
+                  match mail_parse text with
+                  | None => PDone 0
+                  | Some m => PEmit (mail_event m) (self SLoop i [])
+                  end
+              end)
+          else if is_command line s_HELP then self SMail i buf
+          else self SLoop i buf
+      end
+  end.
+
+Fixpoint smtp_prog (clean : bool) (fuel : nat) (st : smtp_st) (i : nat) (buf : bytes) : prog :=
   match fuel with
   | O => PDone OUT_OF_FUEL
   | S f =>
       PUntil LF (fun res =>
         match tp_line res with
         | None => PDone 0                                 (* errorState: ReadLine error *)
-        | Some line =>
-            PEmit (mkEv EV_SMTP_LINE [line])
-              (match st with
-               | SHello =>
-                   if is_command line s_HELO || is_command line s_EHLO
-                   then (match hello_domain line with [] => PDone 0 | _ => smtp_prog f SLoop i buf end)
-                   else if is_command line s_HELP then smtp_prog f SHello i buf
-                   else PDone 0
-               | SLoop =>
-                   match line with
-                   | [] => smtp_prog f SLoop i buf
-                   | _ =>
-                       if LOOP_TRESHOLD <? S i then PDone 0
-                       else if is_command line s_MAILFROM then smtp_prog f SMail (S i) buf
-                       else if is_command line s_STARTTLS then PDone 0   (* TLS handshake on the raw conn *)
-                       else if is_command line s_RSET then smtp_prog f SLoop (S i) []
-                       else if is_command line s_QUIT then PDone 0
-                       else smtp_prog f SLoop (S i) buf
-                   end
-               | SMail =>
-                   match line with
-                   | [] => smtp_prog f SLoop i buf
-                   | _ =>
-                       if is_command line s_RSET then smtp_prog f SLoop i []
-                       else if is_command line s_RCPTTO then smtp_prog f SMail i buf
-                       else if is_command line s_BDAT then
-                         match split_on SP line with
-                         | _ :: cnt :: rest =>
-                             match parse_int 32 cnt with
-                             | None => PDone 0
-                             | Some count =>
-                                 let n := Z.to_nat count in
-                                 PTake n (fun chunk =>
-                                   if length chunk <? n then PDone 0     (* CopyN: EOF *)
-                                   else
-                                     let buf' := buf ++ chunk in
-                                     match rest with
-                                     | [w] => if eqb_bytes w s_LAST
-                                              then match mail_parse buf' with
-                                                   | None => PDone 0
-                                                   | Some body => PEmit (mkEv EV_SMTP_MAIL [body]) (smtp_prog f SLoop i [])
-                                                   end
-                                              else smtp_prog f SMail i buf'
-                                     | _ => smtp_prog f SMail i buf'
-                                     end)
-                             end
-                         | _ => PDone 2                                   (* parts[1]: index out of range *)
-                         end
-                       else if is_command line s_DATA then
-                         dot_prog f DBegin [] (fun r =>
-                           match r with
-                           | None => PDone 0
-                           | Some text =>
-                               match mail_parse text with
-                               | None => PDone 0
-                               | Some body => PEmit (mkEv EV_SMTP_MAIL [body]) (smtp_prog f SLoop i [])
-                               end
-                           end)
-                       else if is_command line s_HELP then smtp_prog f SMail i buf
-                       else smtp_prog f SLoop i buf
-                   end
-               end)
+        | Some line => PEmit (mkEv EV_SMTP_LINE [line]) (smtp_step clean (smtp_prog clean f) f st i buf line)
         end)
   end.
 
@@ -1061,7 +1084,7 @@ Definition SVC_DNS : N := 23%N.
 (* the code *)
 Definition impl_prog (svc : N) (fuel : nat) : prog :=
   if beq svc SVC_FTP then ftp_prog fuel
-  else if beq svc SVC_SMTP then smtp_prog fuel SHello 0 []
+  else if beq svc SVC_SMTP then smtp_prog false fuel SHello 0 []
   else if beq svc SVC_REDIS then redis_prog fuel []
   else if beq svc SVC_MEMCACHED then memcached_prog false fuel
   else if beq svc SVC_HTTP then http_prog cfg_http false fuel
@@ -1080,7 +1103,7 @@ Definition impl_prog (svc : N) (fuel : nat) : prog :=
 (* the reference reading of the same byte stream: one reader per connection, exact counts *)
 Definition spec_prog (svc : N) (fuel : nat) : prog :=
   if beq svc SVC_FTP then ftp_prog fuel
-  else if beq svc SVC_SMTP then smtp_prog fuel SHello 0 []
+  else if beq svc SVC_SMTP then smtp_prog true fuel SHello 0 []
   else if beq svc SVC_REDIS then redis_prog fuel []
   else if beq svc SVC_MEMCACHED then memcached_prog false fuel
   else if beq svc SVC_HTTP then http_prog cfg_http false fuel
